@@ -31,39 +31,56 @@ def ids(interp_state_heap, v):
 
 
 def r1_driver(ctx):
+    """the driver on the REAL population stack (Populations methods inlined over c04's stack model), with 0..2 other
+    populations underneath parents and offspring: replace() receives (parents = the population below the top,
+    offspring = the top population), both are consumed, the result is pushed once on top of whatever was underneath,
+    and everything underneath is untouched; a failing replace() returns the error and pushes nothing"""
+    from c04 import StackModel
+    from c10 import mk_oracle
     F = ctx.facts
+    POP = "mahf::state::common::Populations"
+    sf = F.field_index(POP, "stack")
     fn = F.fn(REPL + "replacement")
     calls = []
-
-    def popf(interp, env, f, args):
-        n = interp.mstate.get("pops", 0)
-        interp.mstate["pops"] = n + 1
-        return Vec("top") if n == 0 else Vec("below") if n == 1 else TOP
-
-    def repl(interp, env, f, args):
-        calls.append((getattr(load(interp, env, args[1]), "vid", None), getattr(load(interp, env, args[2]), "vid", None)))
-        return interp.mstate.get("outcome")
-
-    def pushf(interp, env, f, args):
-        interp.mstate["pushed"] = interp.mstate.get("pushed", ()) + (getattr(args[1], "vid", repr(args[1])),)
-        return Agg("tuple", None, None, [])
-    table = {"mahf::state::State::populations_mut": Sym("populations"), "mahf::state::State::random_mut": Sym("rng"),
-             "mahf::state::common::Populations::pop": popf, REPL + "Replacement::replace": repl, "mahf::state::common::Populations::push": pushf}
-    from c10 import mk_oracle
     bad = []
-    for outcome, label in ((ok(Vec("result")), "ok"), (err(Sym("boom")), "err")):
-        it = install(Interp(fn.body, chain(mk_oracle(table), coll_oracle, std_oracle), [Sym("component"), Sym("problem"), Sym("state")], facts=F))
-        it.init_state = {"outcome": outcome, "heap": {"top": (), "below": (), "result": ()}}
-        for p in it.run():
-            pops, pushed = p.mstate.get("pops", 0), p.mstate.get("pushed", ())
-            if label == "ok":
-                if p.end != "return" or not (isinstance(p.ret, Agg) and p.ret.variant == "Ok") or pops != 2 or pushed != ("result",):
-                    bad.append("after a successful replace(): %s %s, %d pops, pushed %s (expected Ok, 2 pops, the result pushed once)" % (p.end, p.ret, pops, pushed))
-            else:
-                if p.end != "return" or not (isinstance(p.ret, Agg) and p.ret.variant == "Err") or pushed:
-                    bad.append("after a failing replace(): %s %s, pushed %s (expected the error, nothing pushed)" % (p.end, p.ret, pushed))
-    if calls and any(c != ("below", "top") for c in calls):
-        bad.append("replace() receives (parents=%s, offspring=%s); the offspring are the TOP population and the parents the one below" % calls[0])
+    n = 0
+    for below in ((), ("b0",), ("b0", "b1")):
+        for outcome, label in ((ok(Vec("result")), "ok"), (err(Sym("boom")), "err")):
+            def repl(interp, env, f, args):
+                got = (getattr(load(interp, env, args[1]), "vid", None), getattr(load(interp, env, args[2]), "vid", None))
+                calls.append(got)
+                interp.mstate["replace_args"] = interp.mstate.get("replace_args", ()) + (got,)
+                return interp.mstate.get("outcome")
+            popsym = Sym("populations", {sf: Sym("stack")})
+            table = {"mahf::state::State::populations_mut": popsym, "mahf::state::State::populations": popsym, "mahf::state::State::random_mut": Sym("rng"),
+                     REPL + "Replacement::replace": repl}
+            it = install(Interp(fn.body, chain(mk_oracle(table), StackModel(sf), coll_oracle, std_oracle), [Sym("component"), Sym("problem"), Sym("state")], facts=F,
+                                inline=lambda k: k.startswith(POP + "::") or INL(k), max_visits=10))
+            heap = {"parents": (c07.ind(0),), "offspring": (c07.ind(1),), "result": (c07.ind(2),)}
+            for j, bname in enumerate(below):
+                heap[bname] = (c07.ind(10 + j),)
+            it.init_state = {"outcome": outcome, "stack": tuple(Vec(x) for x in below) + (Vec("parents"), Vec("offspring")), "heap": heap, "next_vec": 0}
+            n += 1
+            where = "with %d other population(s) underneath, " % len(below)
+            for p in it.run():
+                names = [getattr(x, "vid", repr(x)) for x in p.mstate.get("stack", ())]
+                rargs = p.mstate.get("replace_args", ())
+                if p.mstate.get("unmodelled"):
+                    bad.append(where + "the driver applies %s to the stack" % (p.mstate["unmodelled"],))
+                    continue
+                if len(rargs) != 1 or rargs[0] != ("parents", "offspring"):
+                    bad.append(where + "replace() receives (parents, offspring) = %s; the offspring are the TOP population and the parents the one below it" % (list(rargs),))
+                    continue
+                if any([c07.otag(x) for x in p.mstate["heap"].get(k, ())] != [c07.otag(x) for x in heap[k]] for k in below):
+                    bad.append(where + "the driver modifies a population underneath")
+                    continue
+                if label == "ok":
+                    if p.end != "return" or not (isinstance(p.ret, Agg) and p.ret.variant == "Ok") or names != list(below) + ["result"]:
+                        bad.append(where + "after a successful replace(): %s %s, stack %s (expected Ok and %s)" % (p.end, p.ret, names, list(below) + ["result"]))
+                else:
+                    if p.end != "return" or not (isinstance(p.ret, Agg) and p.ret.variant == "Err") or "result" in names or names[:len(below)] != list(below):
+                        bad.append(where + "after a failing replace(): %s %s, stack %s (expected the error, nothing pushed, %s untouched)" % (p.end, p.ret, names, list(below)))
+    ctx.count("driver_scenarios", n)
     ctx.check(not bad and calls, "C12.R1", fn.key, "pop-offspring-pop-parents-push-result", bad[0] if bad else "replace() is never called", loc=fn.loc())
 
 
